@@ -193,13 +193,19 @@ def history_work(item):
         ok, reason = C.check_history(codes, zeroed, any_state, min_int, allow, static)
         return ok, reason, codes, allow
 
-    try:
-        paths = sb.explore(build, max_paths=200000)
-    except sb.PathLimit as e:
-        return [{"name": name, "status": INCONCLUSIVE, "detail": str(e), "symbols": ["labels"]}]
     ts = 0.0
     programs = set()
-    for S, (ok, reason, codes, allow) in paths:
+    npaths, ndec = 0, 0
+    stream = sb.explore_iter(build, max_paths=400000)  # streamed: nothing is kept per path
+    while True:
+        try:
+            S, (ok, reason, codes, allow) = next(stream)
+        except StopIteration:
+            break
+        except sb.PathLimit as e:
+            return [{"name": name, "status": INCONCLUSIVE, "detail": str(e), "symbols": ["labels"]}]
+        npaths += 1
+        ndec += S.decisions
         ts += S.solver_s
         programs.add((tuple(codes), allow))
         if ok:
@@ -217,9 +223,9 @@ def history_work(item):
             return [{"name": name, "status": VIOLATED, "signature": f"history:{reason}", "symbols": sorted(vals), "queries": S.decisions,
                      "solver": "z3:sat", "replay": payload, "detail": f"{reason}: reproduces concretely: {obs}"}]
         return [{"name": name, "status": INCONCLUSIVE, "symbols": sorted(vals), "detail": f"{reason}: model does not reproduce concretely ({obs})"}]
-    return [{"name": name, "status": DISCHARGED, "queries": sum(S.decisions for S, _ in paths), "solver": "z3:unsat", "solver_s": round(ts, 3),
+    return [{"name": name, "status": DISCHARGED, "queries": ndec, "solver": "z3:unsat", "solver_s": round(ts, 3),
              "time_s": round(ts, 3), "symbols": [f"{nz + na + 1} integer labels (zeroed, any_state, static)", "min_int", "opcodes", "allow_resets"],
-             "detail": f"{len(paths)} feasible paths covering {len(programs)} opcode programs; every label comparison in the real transform and in the "
+             "detail": f"{npaths} feasible paths covering {len(programs)} opcode programs; every label comparison in the real transform and in the "
                        f"lifetime model decided by z3 for arbitrary distinct labels; no path violates the model"}]
 
 
@@ -251,13 +257,19 @@ def device_history_work(item):
         ok, reason = C.check_history(codes, [], [], None, allow, static, device=device, other_static=others)
         return ok, reason, codes, allow
 
-    try:
-        paths = sb.explore(build, max_paths=200000)
-    except sb.PathLimit as e:
-        return [{"name": name, "status": INCONCLUSIVE, "detail": str(e), "symbols": ["labels"]}]
     ts = 0.0
     programs = set()
-    for S, (ok, reason, codes, allow) in paths:
+    npaths, ndec = 0, 0
+    stream = sb.explore_iter(build, max_paths=400000)  # streamed: nothing is kept per path
+    while True:
+        try:
+            S, (ok, reason, codes, allow) = next(stream)
+        except StopIteration:
+            break
+        except sb.PathLimit as e:
+            return [{"name": name, "status": INCONCLUSIVE, "detail": str(e), "symbols": ["labels"]}]
+        npaths += 1
+        ndec += S.decisions
         ts += S.solver_s
         programs.add((tuple(codes), allow))
         if ok:
@@ -275,9 +287,9 @@ def device_history_work(item):
             return [{"name": name, "status": VIOLATED, "signature": f"device_history:{reason}", "symbols": sorted(vals), "queries": S.decisions,
                      "solver": "z3:sat", "replay": payload, "detail": f"{reason}: reproduces concretely: {obs}"}]
         return [{"name": name, "status": INCONCLUSIVE, "symbols": sorted(vals), "detail": f"{reason}: model does not reproduce concretely ({obs})"}]
-    return [{"name": name, "status": DISCHARGED, "queries": sum(S.decisions for S, _ in paths), "solver": "z3:unsat", "solver_s": round(ts, 3),
+    return [{"name": name, "status": DISCHARGED, "queries": ndec, "solver": "z3:unsat", "solver_s": round(ts, 3),
              "time_s": round(ts, 3), "symbols": ["static and device wire labels (symbolic integers)", "opcodes", "allow_resets"],
-             "detail": f"{len(paths)} feasible paths covering {len(programs)} opcode programs; every label comparison of the real preprocessing step and of the "
+             "detail": f"{npaths} feasible paths covering {len(programs)} opcode programs; every label comparison of the real preprocessing step and of the "
                        f"lifetime model decided by z3 for arbitrary distinct labels; no path violates the model"}]
 
 
